@@ -20,6 +20,11 @@ SPEC = VERIF / "spec"
 JAR = "/opt/veriftools/tla/tla2tools.jar:/opt/veriftools/tla/CommunityModules-deps.jar"
 
 
+# The per-call time-outs are safety nets against a hung JVM, sized on an idle 16-core machine; on a loaded one (other
+# checks running next to this one) TLC is several times slower, and a time-out must not turn into a verdict-less run.
+TIMEOUT_SCALE = float(os.environ.get("VERIF_TLC_TIMEOUT_SCALE", "4"))
+
+
 class MachineryFailure(Exception):
     """TLC (or the harness around it) failed in a way that is not a verdict."""
 
@@ -228,10 +233,10 @@ def run_tlc(
         t0 = time.time()
         try:
             cp = subprocess.run(
-                cmd, cwd=spec_dir, env=e, capture_output=True, text=True, timeout=timeout
+                cmd, cwd=spec_dir, env=e, capture_output=True, text=True, timeout=timeout * TIMEOUT_SCALE
             )
         except subprocess.TimeoutExpired as err:
-            raise MachineryFailure(f"TLC timed out after {timeout}s: {module}/{cfg}") from err
+            raise MachineryFailure(f"TLC timed out after {timeout * TIMEOUT_SCALE}s: {module}/{cfg}") from err
         res = TlcResult(cp.returncode, cp.stdout + cp.stderr, time.time() - t0)
         _parse(res, parse_prints)
         return res
